@@ -89,9 +89,7 @@ theorem deliverNotifiers_quiet (w : TW) (i : Nat) (n : Notif) (k : Nat) :
       split
       · split
         · exact pushB_quiet _ k _
-        · split
-          · exact Quiet.refl _
-          · exact (setStage_quiet _ k _ (.op2n st (.hot j) false nt) hj (fun _ _ h => h)).trans (pushB_quiet _ k _)
+        · exact (setStage_quiet _ k _ (.op2n st (.hot j) false nt) hj (fun _ _ h => h)).trans (pushB_quiet _ k _)
       · exact Quiet.refl _
     · exact Quiet.refl _
 
